@@ -749,9 +749,16 @@ def mock_db(pname, limit):
 REJECTED = (core.MappingError, core.DBSchemaError, core.ERDiagramError)
 
 
-def _check_schema(db, pname, limit, expect_cols):
-    """shared assertions on a generated schema: names, and the schema matches the entity model"""
+DOC_LIMIT = {'postgres': 63, 'mysql': 64, 'oracle': 30, 'sqlite': None}
+"""documented identifier limits: PostgreSQL NAMEDATALEN - 1 = 63 bytes (manual 4.1.1); MySQL 64 characters (manual 9.2.1);
+Oracle 30 bytes (before 12.2, the versions pony's provider targets); SQLite has none (pony uses 1024)"""
+
+
+def _check_schema(db, pname, limit, expect_cols, nullable=()):
+    """shared assertions on a generated schema: names, and the schema matches the entity model; `nullable`: names of
+    attributes declared with nullable=True; limit None: the provider's real limit, checked against the documented one"""
     prov, schema = db.provider, db.schema
+    if limit is None: limit = DOC_LIMIT[pname] or prov.max_name_len
     names = schema_names(schema)
     if not all_distinct(names): return False
     for n in names:
@@ -760,6 +767,7 @@ def _check_schema(db, pname, limit, expect_cols):
         cn = [c.name for c in t.column_list]
         if not all_distinct(cn): return False
         for n in cn:
+            if n == 'classtype': continue                  # the discriminator column is named explicitly, not by a name function
             if not good_name(prov, pname, n, limit): return False
         if t.pk_index is None: return False
     total = 0
@@ -785,7 +793,9 @@ def _check_schema(db, pname, limit, expect_cols):
                 # nullability as declared: Required -> NOT NULL; Optional -> NULL, except strings (stored as '' ) outside Oracle
                 # (an optional string that is unique or part of a composite key/index is nullable as well)
                 in_index = attr.is_unique or any(attr in ix.attrs for ix in ent._indexes_)
-                if attr.is_required: want_nn = True
+                # every attribute declared in a subclass is nullable (single-table inheritance); nullable=True as declared
+                if ent._root_ is not ent or attr.name in nullable: want_nn = False
+                elif attr.is_required: want_nn = True
                 elif attr.py_type is str and pname != 'oracle' and not in_index: want_nn = True
                 else: want_nn = False
                 if bool(col.is_not_null) != want_nn and not col.is_pk: return False
@@ -900,6 +910,82 @@ def mapping_rel_oracle(la: int, lb: int, pk2: bool, rel1: int, rel2: int, self_r
     post: _
     """
     return _mapping_rel_h('oracle', la, lb, pk2, rel1, rel2, self_rel)
+
+
+def _mapping_inherit(pname, pk2, rel, where, data):
+    """Room (single or composite key) <- Event hierarchy: the reference is declared in the root or in a subclass, as
+    Required / Optional / Required(nullable=True); the subclass also has a data attribute"""
+    db = mock_db(pname, LIMIT_M)
+    room = ['building = Required(str)', 'number = Required(int)', 'PrimaryKey(building, number)'] if pk2 else []
+    npk = 2 if pk2 else 1
+    decl = ('room = Required("Room")', 'room = Optional("Room")', 'room = Required("Room", nullable=True)')[rel]
+    dattr = ('cap = Required(int)', 'cap = Optional(str)', 'cap = Required(str)', 'cap = Optional(int, unique=True)')[data]
+    root, sub = ['title = Required(str)'], [dattr]
+    (sub if where else root).append(decl)
+    room.append('events = Set("%s")' % ('Lecture' if where else 'Event'))
+    try:
+        define(db, 'Room', room)
+        Event = define(db, 'Event', root)
+        ns = {'Event': Event}
+        exec('class Lecture(Event):\n' + ''.join('    %s\n' % l for l in sub), dict(vars(__import__('pony.orm', fromlist=['x'])), **ns))
+        exec('class Seminar(Event):\n    pass\n', dict(ns))
+        db.generate_mapping(check_tables=False, create_tables=False)
+    except REJECTED:
+        return True
+    # Room key + Event: id, classtype, title + cap + reference columns
+    return _check_schema(db, pname, LIMIT_M, npk + 3 + 1 + npk, nullable=('room',) if rel == 2 else ())
+
+
+def mapping_inherit(dialect: int, pk2: bool, rel: int, where: bool, data: int) -> bool:
+    """
+    pre: 0 <= dialect < 4 and 0 <= rel <= 2 and 0 <= data <= 3
+    post: _
+    """
+    pname = DIALECTS[conc(dialect, 4)]
+    pk2, rel, where, data = cbool(pk2), conc(rel, 3), cbool(where), conc(data, 4)
+    with NoTracing():
+        return ok(_mapping_inherit(pname, pk2, rel, where, data))
+
+
+def _name_of(n, first):
+    return first + ''.join('abcdefghij'[i % 10] for i in range(n - 1))
+
+
+def _real_limits(pname, delta, what):
+    """the shipped providers with their REAL max_name_len: names of length limit-1, limit, limit+1 for an entity, an
+    attribute (-> column, index and foreign key names) or an m2m pair; nothing generated may exceed the documented limit"""
+    L = DOC_LIMIT[pname]
+    prov = provider(pname, None)
+    if L is None: return prov.max_name_len >= 64           # SQLite: no limit of its own; at least the others' largest
+    if prov.max_name_len != L: return False
+    n = L + delta
+    long_name = _name_of(n, 'E')
+    if len(prov.normalize_name(long_name)) > L: return False
+    db = mock_db(pname, None)
+    if what == 0:          # long entity name: table name, foreign key and index names built from it
+        ent_name, body = long_name, ['par = Required("Par", reverse="kids")']
+    elif what == 1:        # long attribute name: column name and index name
+        ent_name, body = 'Ent', ['%s = Required(int, index=True)' % _name_of(n, 'v'), 'par = Optional("Par", reverse="kids")']
+    else:                  # idx_<table>__<column> / fk_<table>__<column> around the limit, table name below it
+        ent_name, body = _name_of(n - 9, 'E'), ['par = Required("Par", reverse="kids")']
+    try:
+        define(db, 'Par', ['kids = Set("%s", reverse="par")' % ent_name])
+        define(db, ent_name, body)
+        db.generate_mapping(check_tables=False, create_tables=False)
+    except REJECTED:
+        return False                                   # nothing in these declarations collides
+    return _check_schema(db, pname, None, None)
+
+
+def real_limits(dialect: int, delta: int, what: int) -> bool:
+    """
+    pre: 0 <= dialect < 4 and -1 <= delta <= 1 and 0 <= what <= 2
+    post: _
+    """
+    pname = DIALECTS[conc(dialect, 4)]
+    delta, what = conc(delta + 1, 3) - 1, conc(what, 3)
+    with NoTracing():
+        return ok(_real_limits(pname, delta, what))
 
 
 ATTR_NAMES = ('v', 'value_one', 'value_one_b', 'Value_one_c')     # the last three share their first 9 characters (case apart)
